@@ -157,6 +157,20 @@ Example C20_lit_parse_only_rfc_premises :
   lit_parse 8 ([98; 2; 97; 98; 0; 0; 0; 1] ++ [202; 3]) = Some ({| l_format := 98; l_name := [97; 98]; l_mtime := 1; l_data := [] |}, [202; 3])
   /\ lit_parse 6 ([98; 255; 0; 0; 0; 0] ++ [202; 3; 80; 71; 80]) = None.
 Proof. split; vm_compute; reflexivity. Qed.
+(* packet level: a literal data packet and a modification detection code packet are read out of the octets their header declares;
+   what follows the declared body is left, untouched, for the next packet (or the packet is refused) *)
+Theorem C20_literal_mdc_confined : forall decompress rec b h body r p r', wf_bytes body -> wf_bytes r ->
+  header_parse b = Some (h, body ++ r) -> h_len h = Z.of_nat (length body) -> h_tag h = 11 \/ h_tag h = 19 ->
+  parse_one decompress rec b = Ok (p, r') -> r' = r.
+Proof. exact parse_one_literal_mdc_confined. Qed.
+Print Assumptions C20_literal_mdc_confined.
+(* premises met by a 20-octet tag 19 packet followed by a marker packet; the 30-octet one of the single-bit flip C3 -> D3 is refused *)
+Example C20_literal_mdc_confined_premises :
+  (exists h, header_parse ([211; 20] ++ repeat 7 20 ++ [202; 3; 80; 71; 80]) = Some (h, repeat 7 20 ++ [202; 3; 80; 71; 80])
+             /\ h_len h = 20 /\ h_tag h = 19)
+  /\ parse_one (fun _ _ => None) (fun _ => Reject) ([211; 20] ++ repeat 7 20 ++ [202; 3; 80; 71; 80]) = Ok (PMdc (repeat 7 20), [202; 3; 80; 71; 80])
+  /\ parse_one (fun _ _ => None) (fun _ => Reject) ([211; 30] ++ repeat 7 20 ++ [172; 255] ++ repeat 9 8) = Reject.
+Proof. split; [eexists; vm_compute; repeat split; reflexivity|split; vm_compute; reflexivity]. Qed.
 (* what is emitted is what the RFC decoder reads *)
 Theorem C20_lit_body_rfc : forall l b, lit_body l = Some b ->
   rfc_lit_dec b = Some (l_format l, l_name l, l_mtime l, l_data l).
